@@ -223,3 +223,5 @@ B("C09", "mutable default accumulates hits", D + "vba.py", "def find_createobjec
 N("C09", "sorted set literal", REG, "partial(find_keywords, file_name, sorted(keywords))", "partial(find_keywords, file_name, sorted(set(keywords)))")
 N("C09", "local dict for membership", D + "network.py", "    out = []\n    for match in re.finditer(IP_RE, data):\n", "    out = []\n    seen = set()\n    for match in re.finditer(IP_RE, data):\n        seen.add(match.start())\n")
 N("C09", "len(set()) heuristic", D + "base64.py", "len(set(b64_string)) <= MIN_B64_CHARS", "len({c for c in b64_string}) <= MIN_B64_CHARS")
+B("C18", "get_keywords memoised", REG, "def get_keywords(directory: str = \"\") -> Registry:", "@lru_cache(maxsize=None)\ndef get_keywords(directory: str = \"\") -> Registry:", "R5-config", also=[dict(file=REG, old="from functools import partial", new="from functools import lru_cache, partial")])
+B("C09", "get_keywords memoised", REG, "def get_keywords(directory: str = \"\") -> Registry:", "@lru_cache(maxsize=None)\ndef get_keywords(directory: str = \"\") -> Registry:", "R3-shared-writes", also=[dict(file=REG, old="from functools import partial", new="from functools import lru_cache, partial")])
